@@ -94,7 +94,7 @@ func c20TypedNil(w *core.World, r *core.Report, scope map[*ssa.Function]bool) in
 						continue
 					}
 					n++
-					guarded := nilGuarded(mi, mi.X) || okGuarded(mi)
+					guarded := nilGuarded(mi, mi.X) || okGuarded(mi) || errGuarded(mi)
 					r.Check(guarded, "TYPED-NIL", core.Site(f, "result %d converts %s to an interface", ri, mi.X.Type()), w.InstrPos(mi), "a possibly nil pointer ("+why+") becomes a non-nil interface value: the caller's '== nil' test does not fire and the following method call dereferences nil")
 				}
 			}
@@ -204,4 +204,60 @@ func okGuarded(mi *ssa.MakeInterface) bool {
 		}
 	}
 	return false
+}
+
+// errGuarded: the pointer is the first result of 'p, err := g(...)', the conversion executes only on the err == nil
+// outcome, and g hands back a nil pointer only together with an error that is not the nil constant.
+func errGuarded(mi *ssa.MakeInterface) bool {
+	ex, isEx := mi.X.(*ssa.Extract)
+	if !isEx {
+		return false
+	}
+	call, ok := ex.Tuple.(*ssa.Call)
+	if !ok {
+		return false
+	}
+	g := call.Call.StaticCallee()
+	if g == nil || g.Blocks == nil {
+		return false
+	}
+	errIdx := -1
+	res := g.Signature.Results()
+	for i := 0; i < res.Len(); i++ {
+		if isErrorType(res.At(i).Type()) {
+			errIdx = i
+		}
+	}
+	if errIdx < 0 {
+		return false
+	}
+	tested := core.GuardedByErrNil(mi, call)
+	for _, a := range core.GuardAtoms(mi) {
+		v, nilOnTrue, isNil := core.NilTest(a.Cond)
+		if !isNil || nilOnTrue != a.True {
+			continue
+		}
+		if e2, isE := v.(*ssa.Extract); isE && e2.Tuple == ssa.Value(call) && e2.Index == errIdx {
+			tested = true // the error co-result of this very call, found nil
+		}
+	}
+	if !tested {
+		return false
+	}
+	for _, ret := range core.Returns(g) {
+		rv := core.ReturnValues(ret)
+		if ex.Index >= len(rv) || errIdx >= len(rv) {
+			return false
+		}
+		isNil := false
+		for _, o := range core.Origins(rv[ex.Index]) {
+			if core.IsNilConst(o) {
+				isNil = true
+			}
+		}
+		if isNil && core.IsNilConst(rv[errIdx]) {
+			return false // (nil, nil) is possible
+		}
+	}
+	return true
 }
